@@ -106,10 +106,48 @@ def _border_signature(f, idx=None) -> Dict[str, object]:
             sites.append((n.args[0], None, n))
         elif cn in ("np.split", "numpy.split") and len(n.args) == 2:
             sites.append((None, n, n))
-    for b, split, node in sites:
-        at = S.du.node_of_expr(node)
+    # block-closing loop:  start = 0; for stop in STOPS: [if G and skip(stop): continue]; out.append([start, stop]); start = stop
+    for lp in [n for n in ast.walk(f.node) if isinstance(n, ast.For) and isinstance(n.target, ast.Name) and not n.orelse]:
+        t = lp.target.id
+        body = list(lp.body)
+        skip = None
+        if body and isinstance(body[0], ast.If) and len(body[0].body) == 1 and isinstance(body[0].body[0], ast.Continue) and not body[0].orelse:
+            skip, body = body[0].test, body[1:]
+        if len(body) != 2:
+            continue
+        ap, adv = body
+        if not (isinstance(ap, ast.Expr) and isinstance(ap.value, ast.Call) and isinstance(ap.value.func, ast.Attribute) and ap.value.func.attr == "append"
+                and len(ap.value.args) == 1 and isinstance(ap.value.args[0], (ast.List, ast.Tuple)) and len(ap.value.args[0].elts) == 2):
+            continue
+        e0, e1 = ap.value.args[0].elts
+        if not (isinstance(e0, ast.Name) and isinstance(e1, ast.Name) and e1.id == t and isinstance(adv, ast.Assign) and len(adv.targets) == 1
+                and norm(adv.targets[0]) == e0.id and norm(adv.value) == t):
+            continue
+        init = [d for d in S.du.reaching(e0.id, S.cfg.node(lp)) if d.stmt is not adv]
+        if len(init) != 1 or init[0].value is None:
+            continue
+        extra = {"init": init[0].value, "skip": skip, "loop": lp}
+        sites.append((lp.iter, None, lp, extra))
+    for site in sites:
+        b, split, node = site[:3]
+        extra = site[3] if len(site) > 3 else None
+        at = S.du.node_of_expr(node) if extra is None else S.cfg.node(node)
         segs = None
-        if split is not None:
+        if extra is not None:
+            d_ = deref(S, b, at=at)
+            segs = [("el", extra["init"], at)] + (seq_segments(S, d_, at) or [])
+            if extra["skip"] is not None:
+                sk = extra["skip"]
+                gd, cd = [], sk
+                if isinstance(sk, ast.BoolOp) and isinstance(sk.op, ast.And) and len(sk.values) == 2:
+                    gd, cd = [(norm(sk.values[0]), True)], sk.values[1]
+                tv = t_ = node.target.id
+                cdn = norm(cd)
+                keep = "_ % 2 == 0" if cdn in (f"{tv} % 2 != 0", f"{tv} % 2 == 1", f"{tv} % 2", f"{tv} & 1", f"{tv} % 2 > 0") else f"not ({cdn.replace(tv, '_')})"
+                sig["filter"] = sk
+                sig["filter_cond"] = keep
+                sig["filter_guard"] = gd
+        elif split is not None:
             segs = [("el", ast.Constant(value=0), at), ("seq", split.args[1], at),
                     ("el", ast.Call(func=ast.Name(id="len", ctx=ast.Load()), args=[split.args[0]], keywords=[]), at)]
             b_deref = None
@@ -176,6 +214,99 @@ def _border_signature(f, idx=None) -> Dict[str, object]:
         sig["site"] = node
         break
     return sig
+
+
+def _label_form(r2, S, f, Ep, thr_p, inc_p, mask_store, cond_inc) -> bool:
+    """Loop-free window selection: bands are labelled by multiplet (label = [0] ++ cumsum(gap ≥ thresh)) and the mask is
+    changed for `label == label[edge band]`.  Returns False when the function is not of this form."""
+    from ..sem import seq_segments
+    cfg = S.cfg
+
+    def tie_vector(e: ast.AST, at) -> Optional[Tuple[ast.AST, bool]]:
+        """(comparison node, negated?) when e resolves to gap(E) < thresh (negated False) or gap(E) >= thresh / ~(…<…) (negated True)"""
+        e = S.resolve(e, at)
+        neg = False
+        while True:
+            if isinstance(e, ast.UnaryOp) and isinstance(e.op, (ast.Invert, ast.Not)):
+                e, neg = e.operand, not neg
+            elif isinstance(e, ast.Call) and call_name(e) in ("np.logical_not", "numpy.logical_not", "np.invert") and len(e.args) == 1:
+                e, neg = e.args[0], not neg
+            elif isinstance(e, ast.Compare) and len(e.ops) == 1 and isinstance(e.ops[0], ast.Eq) and norm(e.comparators[0]) == "False":
+                e, neg = e.left, not neg
+            else:
+                break
+        if not (isinstance(e, ast.Compare) and len(e.ops) == 1):
+            return None
+        l, r_, op = e.left, e.comparators[0], e.ops[0]
+        if norm(l) == thr_p:
+            l, r_ = r_, l
+            op = {ast.Gt: ast.Lt, ast.GtE: ast.LtE, ast.Lt: ast.Gt, ast.LtE: ast.GtE}.get(type(op), type(op))()
+        if norm(r_) != thr_p:
+            return None
+        if isinstance(l, ast.Call) and call_name(l) in ("abs", "np.abs") and l.args:
+            l = l.args[0]
+        if _gap_array(l) != Ep:
+            return None
+        if isinstance(op, ast.Lt):
+            return e, neg, "<"
+        if isinstance(op, ast.GtE):
+            return e, not neg, "<"
+        if isinstance(op, ast.LtE):
+            return e, neg, "<="
+        if isinstance(op, ast.Gt):
+            return e, not neg, "<="
+        return None
+
+    labels = {}
+    for st in stmts(f.node):
+        if not (isinstance(st, ast.Assign) and len(st.targets) == 1 and isinstance(st.targets[0], ast.Name)):
+            continue
+        at = cfg.node(st)
+        segs = seq_segments(S, st.value, at)
+        if not segs or len(segs) != 2 or segs[0][0] != "el" or segs[1][0] != "seq":
+            continue
+        first = S.resolve(segs[0][1], at)
+        cs = S.resolve(segs[1][1], at)
+        if not (isinstance(cs, ast.Call) and call_name(cs) in ("np.cumsum", "numpy.cumsum") and len(cs.args) == 1):
+            continue
+        tv = tie_vector(cs.args[0], at)
+        if tv is None:
+            continue
+        labels[st.targets[0].id] = (st, first, tv)
+    if not labels:
+        return False
+    for nm, (st, first, (cmpn, neg, op)) in labels.items():
+        r2.instance(f"{f.short}: multiplet labels `{norm1(st, 90)}`")
+        r2.check(neg is True, "the label increases at every gap ≥ thresh (cumulative count of the borders)", f, st,
+                 f"`{norm1(st, 90)}`: the label counts the tied neighbours, not the borders: bands of one multiplet get different labels")
+        r2.check(isinstance(first, ast.Constant) and first.value == 0, "the first band carries label 0 (labels are aligned with the bands)", f, st,
+                 f"`{norm1(st, 90)}`: the label array is not [0] followed by the cumulative border count")
+    for pol in (True, False):
+        def mstore(st):
+            if isinstance(st, ast.Assign) and len(st.targets) == 1 and isinstance(st.targets[0], ast.Subscript) and isinstance(st.value, ast.Constant) \
+                    and isinstance(st.value.value, bool):
+                return st.value.value
+            return None
+        mine = [x for x in stmts(f.node) if mstore(x) is pol and cond_inc(S.conditions(x)) is pol]
+        r2.instance(f"{f.short}: label stores under include_degen={pol}: {len(mine)}")
+        ok = len(mine) >= 2
+        for x in mine:
+            # the selection of the store must be `label[…] == label[edge]`
+            sel = [c for c in ast.walk(x.targets[0]) if isinstance(c, ast.Compare) and len(c.ops) == 1 and isinstance(c.ops[0], ast.Eq)]
+            good = False
+            for c in sel:
+                a, b = c.left, c.comparators[0]
+                for u, v in ((a, b), (b, a)):
+                    ub = u.value if isinstance(u, ast.Subscript) else u
+                    if isinstance(ub, ast.Name) and ub.id in labels and isinstance(v, ast.Subscript) and isinstance(v.value, ast.Name) and v.value.id == ub.id \
+                            and not isinstance(v.slice, ast.Slice):
+                        good = True
+            ok = ok and good
+        r2.check(ok, f"include_degen={pol}: the mask is {'set' if pol else 'cleared'} for all bands carrying the label of the edge band (both edges)", f,
+                 mine[0] if mine else f.node,
+                 f"include_degen={pol}: the window edges do not {'add' if pol else 'remove'} the bands selected by `label == label[edge band]` on both edges: "
+                 f"a multiplet cut by the window is split")
+    return True
 
 
 def run(ctx) -> None:
@@ -420,23 +551,31 @@ def run(ctx) -> None:
                          f"{'≥ ' if kind_ == 'lo' else '≤ '}{' or '.join(str(r_) for r_ in rel)} instead of {'0' if kind_ == 'lo' else 'len − 1'}: "
                          f"the {'first' if kind_ == 'lo' else 'last'} band is never reached, so a multiplet containing it is split by the window edge",
                          stmt=f"walk bound {norm1(node_, 60)}")
-    r2.expect(n_walks >= 2, "gap walks located", f, f.node, f"select_window_degen: expected ≥2 walks along neighbouring gaps (in it or its helpers), found {n_walks}")
+    has_loops = any(isinstance(x, (ast.For, ast.While)) for wf_, _ in walk_funcs for x in ast.walk(wf_.node))
+    r2.expect(n_walks >= 2 or not has_loops, "gap walks located", f, f.node, f"select_window_degen: expected ≥2 walks along neighbouring gaps (in it or its helpers), found {n_walks}")
 
     edge_loops = [l for l in stmts(f.node) if isinstance(l, ast.For) and isinstance(l.iter, ast.Call) and call_name(l.iter) == "range"
                   and any(mask_store(x) is not None for x in ast.walk(l) if isinstance(x, ast.stmt))
                   and not any(isinstance(p_, (ast.For, ast.While)) for p_ in enclosing_all(pm, l, (ast.For, ast.While)))]
-    if len(edge_loops) == 0:
+    label_form = False
+    if len(edge_loops) == 0 and n_walks == 0:
+        label_form = _label_form(r2, S, f, Ep, thr_p, inc_p, mask_store, cond_inc)
+    if label_form:
+        edge_loops = []
+    elif len(edge_loops) == 0:
         # slice form: the cut multiplet is added / removed by one slice store whose ends come from a gap walk
         sl_stores = [x for x in stmts(f.node) if mask_store(x) is not None and isinstance(x.targets[0].slice, ast.Slice)]
-        r2.expect(len(sl_stores) >= 4, "slice stores located", f, f.node,
-                  f"select_window_degen: neither two window-edge loops nor four slice stores (include/exclude × upper/lower) found")
+        if not r2.expect(len(sl_stores) >= 4 and n_walks >= 2, "slice stores located", f, f.node,
+                         f"select_window_degen: neither two window-edge loops, nor four slice stores (include/exclude × upper/lower) fed by gap "
+                         f"walks, nor multiplet labels (cumulative count of the gaps ≥ thresh) found"):
+            sl_stores = []
         helper_names = {h_.name for h_, _ in walk_funcs[1:]}
         walk_vars = set()
         for lp_ in [x for x in ast.walk(f.node) if isinstance(x, ast.While)]:
             tr_ = resolved_test(lp_.test, lp_, {n_.id for st_ in ast.walk(lp_) for n_ in ast.walk(st_) if isinstance(n_, ast.Name) and isinstance(n_.ctx, ast.Store)})
             if gap_tests(tr_) or gap_tests(lp_.test):
                 walk_vars |= {n_.id for st_ in lp_.body for n_ in ast.walk(st_) if isinstance(n_, ast.Name) and isinstance(n_.ctx, ast.Store)}
-        for pol in (True, False):
+        for pol in ((True, False) if sl_stores else ()):
             mine = [x for x in sl_stores if mask_store(x) is pol and cond_inc(S.conditions(x)) is pol]
             r2.instance(f"{f.short}: slice stores under include_degen={pol}: {len(mine)}")
             okw = len(mine) >= 2
